@@ -11,6 +11,9 @@ use serde_json::{json, Value};
 
 use crate::refimpl::{Fault, RefPurl};
 
+/// in replay mode only violations on exactly this input are recorded
+pub static REPLAY_INPUT: std::sync::OnceLock<Value> = std::sync::OnceLock::new();
+
 pub struct Ctx {
     pub evaluations: AtomicU64,
     pub nontrivial: AtomicU64,
@@ -46,6 +49,11 @@ impl Ctx {
     }
 
     pub fn violate(&self, unit: &str, clause: &str, input: Value, observed: String, required: String) {
+        if let Some(want) = REPLAY_INPUT.get() {
+            if *want != input {
+                return;
+            }
+        }
         self.nviol.fetch_add(1, Ordering::Relaxed);
         let mut v = self.violations.lock().unwrap();
         if v.len() < 10 {
